@@ -43,7 +43,14 @@ type Options struct {
 	DisableAlleviate bool  `json:"disableAlleviate"`
 	// PeriodMS: the coordinator's period (--coordinator.interval); 0 as in the repository's own tests
 	PeriodMS int `json:"periodMs,omitempty"`
+	// IdleMS: --shard.max-idle-time in milliseconds when scale-down is on (0 = one hour)
+	IdleMS int `json:"idleMs,omitempty"`
 }
+
+// NearMarginMS: a shard whose idle state is "near" has been idle for max-idle-time minus this margin when the
+// execution starts - it has NOT been idle for longer than max-idle-time as long as the cycle ends within the margin
+// (the transcript records whether it did).
+const NearMarginMS = 400
 
 // TargetSpec is one discovered target and what the explorer says about it.
 type TargetSpec struct {
@@ -127,6 +134,9 @@ type Transcript struct {
 	Panic    string       `json:"panic,omitempty"`
 	Hung     bool         `json:"hung,omitempty"`
 	Replicas []ReplicaLog `json:"replicas"`
+	// NearStillFresh: when the cycle was over, shards with idle state "near" had still not been idle for longer
+	// than max-idle-time (false: the machine was slow, nothing can be said about them)
+	NearStillFresh bool `json:"nearStillFresh,omitempty"`
 }
 
 // InSync says whether the script makes the shard in sync by the statement of C08.
@@ -153,6 +163,8 @@ type fakeShard struct {
 	hash    string
 	rtCalls int
 	stCalls int
+	// nearStart: the idle-since instant of a shard whose idle state is "near"
+	nearStart time.Time
 }
 
 func healthOf(h string) pscrape.TargetHealth {
@@ -231,6 +243,9 @@ func (f *fakeShard) getCore(path string) (data interface{}, fail error) {
 			t := farFuture
 			if f.spec.Idle == "expired" {
 				t = farPast
+			}
+			if f.spec.Idle == "near" && !f.nearStart.IsZero() {
+				t = f.nearStart
 			}
 			ri.IdleStartAt = &t
 		}
@@ -504,6 +519,11 @@ func ExecSeq(scs []*Scenario) []*Transcript {
 		}()
 	}
 	st := &stepper{calls: make(chan int, 8), release: make(chan struct{})}
+	maxIdle := time.Hour
+	if scs[0].Opt.IdleMS > 0 {
+		maxIdle = time.Duration(scs[0].Opt.IdleMS) * time.Millisecond
+	}
+	nearStart := time.Now().Add(-(maxIdle - NearMarginMS*time.Millisecond))
 	allMans := make([][]*fakeManager, len(scs))
 	for k, sc := range scs {
 		tr := &Transcript{Replicas: make([]ReplicaLog, len(sc.Replicas))}
@@ -518,7 +538,7 @@ func ExecSeq(scs []*Scenario) []*Transcript {
 				if !sp.HashEqual {
 					h = OldHash
 				}
-				fs := &fakeShard{spec: sp, hash: h}
+				fs := &fakeShard{spec: sp, hash: h, nearStart: nearStart}
 				if wire {
 					fs.host = fmt.Sprintf("c%d-r%d-s%d.wire", k, ri, si)
 					wireMu.Lock()
@@ -563,7 +583,7 @@ func ExecSeq(scs []*Scenario) []*Transcript {
 		DisableAlleviate: sc0.Opt.DisableAlleviate,
 	}
 	if sc0.Opt.IdleOn {
-		opt.MaxIdleTime = time.Hour
+		opt.MaxIdleTime = maxIdle
 	}
 	rand.Seed(sc0.RandSeed)
 	c := coordinator.NewCoordinator(opt, st,
@@ -592,6 +612,10 @@ loop:
 		select {
 		case n := <-st.calls:
 			reached = n
+			if n >= 2 && n-2 < len(trs) {
+				// cycle n-1 is over
+				trs[n-2].NearStillFresh = time.Now().Before(nearStart.Add(maxIdle))
+			}
 			if n > len(scs) {
 				state = 2
 				break loop
